@@ -34,7 +34,9 @@ type Proxy struct {
 	// buffers and then its write queue fill up. ClientRcvBuf > 0 shrinks the receive buffer of
 	// accepted connections so that this takes less data.
 	PauseUp      atomic.Bool
+	PauseDown    atomic.Bool // the same for the server->client direction (ServerRcvBuf for the proxy's socket towards the server)
 	ClientRcvBuf int
+	ServerRcvBuf int
 }
 
 // CutPlan cuts a connection after a number of bytes in one direction.
@@ -139,6 +141,9 @@ func (p *Proxy) serve(c net.Conn) {
 	if tc, ok := c.(*net.TCPConn); ok && p.ClientRcvBuf > 0 {
 		tc.SetReadBuffer(p.ClientRcvBuf)
 	}
+	if tc, ok := s.(*net.TCPConn); ok && p.ServerRcvBuf > 0 {
+		tc.SetReadBuffer(p.ServerRcvBuf)
+	}
 	pc := &pconn{c: c, s: s}
 	p.mu.Lock()
 	p.conns[pc] = struct{}{}
@@ -159,7 +164,7 @@ func (p *Proxy) pipe(pc *pconn, src, dst net.Conn, up bool, plan *CutPlan) {
 	buf := make([]byte, 32<<10)
 	var total int64
 	for {
-		for up && p.PauseUp.Load() && !pc.closed.Load() && !p.closed.Load() {
+		for ((up && p.PauseUp.Load()) || (!up && p.PauseDown.Load())) && !pc.closed.Load() && !p.closed.Load() {
 			time.Sleep(200 * time.Microsecond)
 		}
 		n, err := src.Read(buf)
